@@ -338,7 +338,7 @@ func emitParse(g *hx.Gen, class, outerTag, mode string, file, pass []byte) {
 // ---------------------------------------------------------------- generator
 
 func gen(g *hx.Gen) {
-	n := g.Count(1500, 20000)
+	n := g.Count(1500, 15000)
 	r := g.R
 	nkg := 0
 	for i := 0; i < n; i++ {
